@@ -53,3 +53,19 @@ claim("C12", "differential property testing: two generated schedules over the sa
 claim("C17", "model-based property testing: address multimap vs unspent outputs recomputed from the generated blocks",
       "Generated chains with heavy script reuse indexed with --index-addresses; script->outpoint multimap, per-entry script/value and get_address_info compared with the set of unspent outputs derived directly from the blocks at every checkpoint.",
       "OP_RETURN outputs count as unspent (nothing can spend them); pseudo-outputs listed under the empty script are excluded.")
+
+claim("C03", "model-based property testing (proptest): inscriptions bound to sats in a reference model vs the real index over generated chains",
+      "RefInscriptions attaches each inscription to a sat and lets RefSats move it; at every checkpoint every inscription's reported satpoint, sat, burned/unbound status and find() result must equal the model.",
+      "ParsedEnvelope::from_transaction trusted (C27); no duplicate txids in these profiles.")
+claim("C04", "table audit over generated histories (proptest)",
+      "At every checkpoint the dump is audited: one satpoint per sequence number, output lists equal the satpoint table as multisets, offsets inside values, counts equal the parser's envelope count.",
+      "Dump hook H1; envelope count via ord's own parser as the statement says.")
+claim("C05", "table audit + model ids over generated histories crossing the jubilee (proptest)",
+      "Ids, dense blessed/cursed numbering, inverse lookup tables, per-height counters and fee-spent-last ordering checked at every checkpoint on regtest (jubilee 110) and testnet4.",
+      "Curse classification itself is not predicted.")
+claim("C06", "model-based property testing (proptest): sat occupancy from the reference model vs charms",
+      "The two implications of the statement are evaluated for every inscription of every generated chain using the model's per-sat occupancy.",
+      "Grey zone between the implications is not asserted.")
+claim("C07", "model-based property testing (proptest): S(tx) from the reference model vs recorded parents and derived tables",
+      "Generated parent references of every kind; recorded parents must equal named ∩ spent-or-revealed ∩ older, children/latest-child tables must be consistent.",
+      "S(tx) computed from sats (model), not from ord's flotsam list.")
